@@ -12,6 +12,7 @@ import (
 	"github.com/mycoria/mycoria/config"
 	"github.com/mycoria/mycoria/frame"
 	"github.com/mycoria/mycoria/m"
+	"github.com/mycoria/mycoria/peering"
 	"github.com/mycoria/mycoria/router"
 
 	"verif/core"
@@ -394,4 +395,25 @@ func pingHeaderCBOR(pingID uint64, pingType string, code uint8, followUp bool, h
 
 func pingHeaderFor(id *ids.Identity, pingID uint64, pingType string, code uint8, followUp bool) []byte {
 	return pingHeaderCBOR(pingID, pingType, code, followUp, string(id.Addr.Hash), string(id.Addr.Type), id.Addr.PublicKey, id.Addr.Easing)
+}
+
+// linkTiers are the pooled buffer sizes a link frame can fill exactly.
+var linkTiers = []int{600, 1600, 5100, 9600}
+
+// exactFit returns the message size for which a frame with the given switch
+// block and appendix size, wrapped by a link (12-byte header, 16-byte MAC),
+// is exactly tier bytes long; ok is false if no such message size exists.
+func exactFit(b *frame.Builder, src, dst netip.Addr, mt frame.MessageType, sw []byte, apx, tier int) (size int, ok bool) {
+	probe, err := b.NewFrameV1(src, dst, mt, sw, []byte{0}, make([]byte, apx))
+	if err != nil {
+		return 0, false
+	}
+	d, err := probe.FrameDataWithMargins(0, 0)
+	base := len(d) - 1
+	probe.ReturnToPool()
+	if err != nil {
+		return 0, false
+	}
+	size = tier - peering.FrameOffset - peering.FrameOverhead - base
+	return size, size >= 1 && size <= 10000
 }
